@@ -70,3 +70,24 @@ package http
 //@     pure
 //@   callee Error(m, f)
 //@     pure
+
+// The encoders behind the Encoder interface (C19): encoding an event only appends
+// to the batch buffer - whatever was encoded before stays in front, untouched in
+// length.  (This is what out$1 assumes of Encode; here it is checked for both
+// implementations.  Dig / Encode of insane-json and Event.Encode are trusted to
+// append.)
+
+//@ func (*RawEncoder).Encode
+//@   ensures len(result) >= len(buf)
+//@   ensures isnil(result) || sameblock(result, buf) || fresh(result)
+//@   callee Dig(path) (n)
+//@     pure
+//@   callee Encode(b) (r)
+//@     pure
+//@     ensures len(r) >= len(b) && (isnil(r) || sameblock(r, b) || fresh(r))
+
+//@ func (*JSONEncoder).Encode
+//@   ensures len(result) >= len(buf)
+//@   callee Encode(b) (r, n)
+//@     pure
+//@     ensures len(r) >= len(b)
